@@ -23,7 +23,15 @@ Definition frame (s : st) :=
    (s_ct_byte s, s_ct_start s, s_ct_line s), s_modes s, s_nmodes s, s_errs s, s_nerrs s,
    (s_cp s, s_mnl s, s_pstat s, s_mark s, s_perr s), (s_iters s, s_aborted s, s_loop_detected s)).
 
-Definition lines_pos (s : st) : Prop := exists p, w_nlines (s_buf s) = Npos p.
+(** the line table is non-empty and the line protocol is intact: no violation so far and no line
+    feed waiting for its [add_line] *)
+Definition lines_good (s : st) : Prop := g_lines_ok (s_ghost s) = true /\ g_line_debt (s_ghost s) = false.
+Definition lines_pos (s : st) : Prop := (exists p, w_nlines (s_buf s) = Npos p) /\ lines_good s.
+
+(** [lines_pos] reads the line count and the two monitor flags only *)
+Lemma lines_pos_same a b :
+  w_nlines (s_buf a) = w_nlines (s_buf b) -> s_ghost a = s_ghost b -> lines_pos b -> lines_pos a.
+Proof. unfold lines_pos, lines_good. intros -> ->. exact (fun H => H). Qed.
 
 Record FrameEq (a b : st) : Prop := {
   fe_src : s_src a = s_src b; fe_srclen : s_srclen a = s_srclen b;
@@ -69,11 +77,19 @@ Proof. reflexivity. Qed.
 Lemma peek_scrub s : peek (scrub s) = peek s. Proof. reflexivity. Qed.
 Lemma peek_is_scrub s p : peek_is (scrub s) p = peek_is s p. Proof. reflexivity. Qed.
 
-Lemma lines_pos_adv s x r : lines_pos s -> lines_pos (st_adv s x r).
-Proof. intros H. exact H. Qed.
+Lemma lines_pos_adv s x r : (x =? NL) = false -> lines_pos s -> lines_pos (st_adv s x r).
+Proof.
+  intros Hx [Hp [Ho Hd]]. split; [exact Hp|]. unfold lines_good, st_adv, adv_ghost. cbn [s_ghost set].
+  rewrite Hd, Hx. split; assumption.
+Qed.
 
-Lemma lines_pos_add_line s : lines_pos s -> lines_pos (st_add_line s).
-Proof. intros [p H]. unfold lines_pos, st_add_line. cbn. rewrite H. exists (p + 1)%positive. reflexivity. Qed.
+(** a line feed followed at once by its [add_line] *)
+Lemma lines_pos_nl s x r : (x =? NL) = true -> lines_pos s -> lines_pos (st_add_line (st_adv s x r)).
+Proof.
+  intros Hx [[p H] [Ho Hd]]. split.
+  - unfold st_add_line. cbn. rewrite H. exists (p + 1)%positive. reflexivity.
+  - unfold lines_good, st_add_line, clear_debt, st_adv, adv_ghost. cbn [s_ghost set]. rewrite Hd, Hx. cbn. rewrite Ho. split; reflexivity.
+Qed.
 
 (** ** Scanning loops *)
 Section Loops.
@@ -89,7 +105,7 @@ Section Loops.
   Lemma ws1_frame s x r : frame (ws1 s x r) = frame s.
   Proof. unfold ws1. destruct (x =? NL); reflexivity. Qed.
   Lemma ws1_lines s x r : lines_pos s -> lines_pos (ws1 s x r).
-  Proof. intros H. unfold ws1. destruct (x =? NL); [apply lines_pos_add_line|]; apply lines_pos_adv; exact H. Qed.
+  Proof. intros H. unfold ws1. destruct (x =? NL) eqn:Ex; [apply lines_pos_nl|apply lines_pos_adv]; assumption. Qed.
 
   Lemma ws_loop_unfold f s x r : c_rest (s_cur s) = x :: r ->
     run false (lex_ws_loop (S f)) s =
@@ -124,15 +140,27 @@ Definition st_start (s : st) : st :=
 
 Lemma ex_start_token s : lines_pos s -> exec false OStartToken s = Done tt (st_start s).
 Proof.
-  intros [p H]. unfold exec, last_line_or_add, last_line. cbn [s_buf note_observe_lines].
+  intros [[p H] _]. unfold exec, last_line_or_add, last_line. cbn [s_buf note_observe_lines].
   replace (w_nlines (s_buf (note_observe_lines s))) with (w_nlines (s_buf s)) by reflexivity.
   rewrite H. change (N.pos p =? 0) with false. cbv iota. unfold st_start. rewrite H. reflexivity.
 Qed.
+
+Lemma lines_pos_start s : lines_pos s -> lines_pos (st_start s).
+Proof.
+  intros [Hp [Ho Hd]]. split; [exact Hp|]. unfold lines_good, st_start, note_observe_lines. cbn [s_ghost set].
+  rewrite Ho, Hd. split; [reflexivity|exact Hd].
+Qed.
+
+Lemma lines_pos_adv_start s x r : (x =? NL) = false -> lines_pos s -> lines_pos (st_adv (st_start s) x r).
+Proof. intros Hx H. apply lines_pos_adv; [exact Hx|]. apply lines_pos_start. exact H. Qed.
 
 Definition st_emit (s : st) (ch : TokenChannel) (ty : TokenType) (pl : payload) : st :=
   let b := s_buf s in
   s <| s_buf := b <| w_toks := mkTok ch ty (s_ct_byte s) (s_ct_start s) (s_ct_line s) pl :: w_toks b |>
                   <| w_ntoks := w_ntoks b + 1 |> |>.
+
+Lemma lines_pos_emit s ch ty pl : lines_pos s -> lines_pos (st_emit s ch ty pl).
+Proof. exact (fun H => H). Qed.
 
 Lemma ex_emit s ch ty pl : exec false (OEmitToken ch ty pl) s = Done tt (st_emit s ch ty pl).
 Proof. reflexivity. Qed.
@@ -145,6 +173,15 @@ Proof. intros H. unfold exec. rewrite H. reflexivity. Qed.
 
 Lemma ex_set_pending s v b ps : s_pstat s = b :: ps -> exec false (OSetPending v) s = Done tt (s <| s_pstat := v :: ps |>).
 Proof. intros H. unfold exec. rewrite H. reflexivity. Qed.
+
+Lemma lines_pos_error s k : lines_pos s -> lines_pos (Core.emit_error s k).
+Proof.
+  intros [Hp [Ho Hd]]. split; [exact Hp|]. unfold lines_good, Core.emit_error, push_error, note_observe_lines. cbn [s_ghost set].
+  rewrite Ho, Hd. split; [reflexivity|exact Hd].
+Qed.
+
+Lemma lines_pos_push_mode s m : lines_pos s -> lines_pos (Core.push_mode s m).
+Proof. intros [Hp [Ho Hd]]. split; [exact Hp|]. split; [exact Ho|exact Hd]. Qed.
 
 Lemma ex_emit_error s k : exec false (OEmitError k) s = Done tt (Core.emit_error s k).
 Proof. reflexivity. Qed.
@@ -176,6 +213,22 @@ Ltac close_tests :=
     | progress cbn [andb orb negb]
     | progress cbv iota ].
 
+
+(** side conditions "this character is not a line feed", from what the context knows about it *)
+Ltac nl_absurd :=
+  match goal with
+  | H : In _ _ |- _ => vm_compute in H; intuition discriminate
+  | H : _ = true |- _ => vm_compute in H; discriminate H
+  | H : _ = false |- _ => vm_compute in H; discriminate H
+  end.
+Ltac nnl :=
+  first [ reflexivity | assumption
+        | match goal with
+          | E : (?c =? ?k) = true |- (?c =? NL) = false => is_var c; apply N.eqb_eq in E; subst c; nnl
+          | |- (?c =? NL) = false =>
+            let E := fresh "ENL" in
+            destruct (N.eqb_spec c NL) as [E|E]; [exfalso; subst c; nl_absurd|reflexivity]
+          end ].
 
 (** ** The open-code configuration, related to a reference state *)
 Record OC (text : list char) (s : st) (rs : rstate) : Prop := {
@@ -221,7 +274,7 @@ Section Classes.
 
   Lemma OC_start s rs : OC text s rs -> OC text (st_start s) rs.
   Proof.
-    intros [I M C N P V L1 L2 L]. constructor; try assumption.
+    intros [I M C N P V L1 L2 L]. constructor; try assumption; [|apply lines_pos_start; exact L].
     pose proof (run_InvPos false text (do OStartToken) s I) as H.
     cbn [run do] in H. rewrite (ex_start_token s L) in H. exact H.
   Qed.
@@ -254,7 +307,7 @@ Section Classes.
       + unfold last_default_type, last_default_tok. cbn. rewrite (fe_toks _ _ Fe). exact (oc_prev _ _ _ HOC).
       + cbn. rewrite (fe_lit _ _ Fe). exact (oc_lit _ _ _ HOC).
       + cbn. rewrite (fe_litlen _ _ Fe). exact (oc_litlen _ _ _ HOC).
-      + destruct Hl1 as [p Hp]. exists p. exact Hp.
+      + exact Hl1.
     - change (c_rest (s_cur (st_emit s1 CH_HIDDEN T_WS PNone))) with (c_rest (s_cur s1)).
       rewrite Hrest, Hr. rewrite skipn_count_while. cbn [drop_while]. rewrite Hc. reflexivity.
     - cbn. rewrite (fe_toks _ _ Fe), (fe_ctb _ _ Fe). reflexivity.
@@ -271,6 +324,9 @@ Section Simple.
   Variable bb : N.
 
   Definition st_pend (s : st) (v : bool) : st := s <| s_pstat := [v] |>.
+
+  Lemma lines_pos_pend s v : lines_pos s -> lines_pos (st_pend s v).
+  Proof. exact (fun H => H). Qed.
 
   Lemma run_simple1 s rs c r ch ty v :
     OC text s rs -> c_rest (s_cur s) = c :: r ->
@@ -310,11 +366,12 @@ Section Simple.
   Proof. reflexivity. Qed.
 
   Lemma step_simple1 s rs c r ch ty v :
+    (c =? NL) = false ->
     OC text s rs -> c_rest (s_cur s) = c :: r ->
     StepOK text bb s [mkRtok ty ch (cur_byte s + bb) PNone] [] 1 (rs_after rs ch ty v)
            (st_pend (st_emit (st_adv (st_start s) c r) ch ty PNone) v).
   Proof.
-    intros HOC Hr.
+    intros Hnl HOC Hr.
     assert (Hinv : InvPos text (st_pend (st_emit (st_adv (st_start s) c r) ch ty PNone) v)).
     { pose proof (run_InvPos false text (start_token ;; advance_ ;; emit_token ch ty PNone ;; set_pending_stat v) s (oc_inv _ _ _ HOC)) as H.
       rewrite (run_simple1 s rs c r ch ty v HOC Hr) in H. exact H. }
@@ -328,7 +385,8 @@ Section Simple.
         destruct (ch_eqb ch CH_DEFAULT); [reflexivity|]. exact (oc_prev _ _ _ HOC).
       + exact (oc_lit _ _ _ HOC).
       + exact (oc_litlen _ _ _ HOC).
-      + exact (oc_lines _ _ _ HOC).
+      + apply lines_pos_pend, lines_pos_emit.
+        apply lines_pos_adv; [exact Hnl|]. apply lines_pos_start. exact (oc_lines _ _ _ HOC).
     - rewrite Hr. reflexivity.
     - reflexivity.
     - reflexivity.
@@ -336,11 +394,12 @@ Section Simple.
   Qed.
 
   Lemma step_simple2 s rs c c2 r ch ty v :
+    (c =? NL) = false -> (c2 =? NL) = false ->
     OC text s rs -> c_rest (s_cur s) = c :: c2 :: r ->
     StepOK text bb s [mkRtok ty ch (cur_byte s + bb) PNone] [] 2 (rs_after rs ch ty v)
            (st_pend (st_emit (st_adv (st_adv (st_start s) c (c2 :: r)) c2 r) ch ty PNone) v).
   Proof.
-    intros HOC Hr.
+    intros Hnl Hnl2 HOC Hr.
     assert (Hinv : InvPos text (st_pend (st_emit (st_adv (st_adv (st_start s) c (c2 :: r)) c2 r) ch ty PNone) v)).
     { pose proof (run_InvPos false text (start_token ;; advance_ ;; advance_ ;; emit_token ch ty PNone ;; set_pending_stat v) s (oc_inv _ _ _ HOC)) as H.
       rewrite (run_simple2 s rs c c2 r ch ty v HOC Hr) in H. exact H. }
@@ -354,7 +413,8 @@ Section Simple.
         destruct (ch_eqb ch CH_DEFAULT); [reflexivity|]. exact (oc_prev _ _ _ HOC).
       + exact (oc_lit _ _ _ HOC).
       + exact (oc_litlen _ _ _ HOC).
-      + exact (oc_lines _ _ _ HOC).
+      + apply lines_pos_pend, lines_pos_emit.
+        apply lines_pos_adv; [exact Hnl2|]. apply lines_pos_adv; [exact Hnl|]. apply lines_pos_start. exact (oc_lines _ _ _ HOC).
     - rewrite Hr. reflexivity.
     - reflexivity.
     - reflexivity.
